@@ -48,6 +48,23 @@ Corpus ==
     macro   |-> ("main" :> Lib \o <<PrintS(Call("mm", <<SP("s1", LI(1))>>)), PrintS(MCall("_self", "mm", <<LI(5), SP("s2", LI(6))>>))>>),
     import  |-> ("main" :> <<Import(LS(NT.t1), "L"), PrintS(MCall("L", "mm", <<SP("s1", LI(1))>>))>>) @@ ("t1" :> Lib),
     fromimp |-> ("main" :> <<From(LS(NT.t1), <<"mm">>, <<"qq">>), For1("i", L12, <<PrintS(Call("qq", <<SP("s1", Var("i"))>>))>>)>>) @@ ("t1" :> Lib),
+    nestloop |-> ("main" :> <<For1("i", SP("s1", L12), <<For1("j", SP("s2", L12), <<PrintS(SP("s3", Bin("*", Var("i"), Var("j")))), T(<<44>>)>>), T(<<59>>)>>)>>),
+    blockloop |-> ("main" :> <<Extends(LS(NT.t1)), Block("bb", <<For1("i", L12, <<PrintS(SP("s1", Var("i"))), PrintS(Call("parent", <<>>))>>)>>)>>)
+                  @@ ("t1" :> <<T(<<60>>), Block("bb", <<PrintS(SF("s2", LI(0)))>>), T(<<62>>)>>),
+    chain3  |-> ("main" :> <<Extends(LS(NT.t1)), Block("bb", <<PrintS(SP("s1", LI(1))), PrintS(Call("parent", <<>>))>>)>>)
+                @@ ("t1" :> <<Extends(LS(NT.t2)), Block("bb", <<PrintS(SP("s2", LI(2))), PrintS(Call("parent", <<>>))>>)>>)
+                @@ ("t2" :> <<T(<<60>>), Block("bb", <<PrintS(SP("s3", LI(3)))>>), T(<<62>>)>>),
+    macmac  |-> ("main" :> <<Macro("inner", <<Param("a")>>, <<PrintS(SP("s1", Var("a")))>>),
+                             Macro("outer", <<Param("a")>>, <<T(<<40>>), PrintS(Call("inner", <<SP("s2", Var("a"))>>)), T(<<41>>)>>),
+                             For1("i", L12, <<PrintS(Call("outer", <<Var("i")>>))>>)>>),
+    incmac  |-> ("main" :> <<Macro("mw", <<>>, <<Inc(LS(NT.t1))>>), PrintS(Call("mw", <<>>)), PrintS(SP("s2", LI(2)))>>)
+                @@ ("t1" :> <<PrintS(SP("s1", LI(1)))>>),
+    applyloop |-> ("main" :> <<For1("i", L12, <<Apply("upper", <<>>, <<T(<<120>>), PrintS(SF("s1", Var("i")))>>)>>), Apply("sfa", <<>>, <<T(<<121>>)>>)>>),
+    setif   |-> ("main" :> <<For1("i", L12, <<If1(Bin("==", Var("i"), LI(2)), <<Set("z", SP("s1", Var("i")))>>)>>), PrintS(SF("s2", Var("z")))>>),
+    condargs |-> ("main" :> <<PrintS(Cond(SP("s1", LB(FALSE)), SP("s2", LI(1)), Filt("default", SP("s3", Lit(Null)), <<SP("s4", LI(9))>>)))>>),
+    attritem |-> ("main" :> <<Set("h", Hash(<<LS(NT.k)>>, <<Arr(<<SP("s1", LI(5))>>)>>)), PrintS(SP("s2", Item(Attr(Var("h"), "k"), SP("s3", LI(0)))))>>),
+    incwithloop |-> ("main" :> <<For1("i", L12, <<Include(LS(NT.t1), Hash(<<LS(NT.z)>>, <<SP("s1", Var("i"))>>), TRUE, TRUE, FALSE, FALSE)>>)>>)
+                    @@ ("t1" :> <<PrintS(SF("s2", Var("z")))>>),
     deep    |-> ("main" :> <<Block("ob", <<For1("i", L12, <<If1(SP("s1", LB(TRUE)), <<Inc(LS(NT.t1))>>)>>)>>)>>)
                 @@ ("t1" :> <<Import(LS(NT.t2), "L"), PrintS(MCall("L", "mm", <<SF("s2", Var("i"))>>))>>) @@ ("t2" :> Lib)
   ]
